@@ -27,6 +27,13 @@ def corpus():
     # as found: the empty password is sent to the directory as an unauthenticated bind (RFC 4513 5.1.2)
     s.append(("empty-password-unauthenticated-bind", ["anon 1", "login 0 0 L", "login 1 0 U"] + dn + ["login 0 0 L", "anon 0", "srv 0 up", "login 0 0 M", "login 0 1 l"]))
     s.append(("empty-password-refused-bind", ["login 0 1 l", "login 0 0 L", "srv 0 err53", "login 0 0 L", "login 0 0 l"]))
+    # several bind patterns (seeded by a reviewer): the directory rejects the old password under the first
+    # pattern, the last pattern is answered with an error — the rejection must stand and must evict
+    s.append(("rejected-on-first-pattern-error-on-last", ["pats e m", "login 0 1 l", "sync", "chpw 0 3", "login 0 1 l", "sync"] + dn +
+              ["login 0 1 l", "prim slow", "login 0 1 l"]))
+    s.append(("patterns-first-verdict-wins", ["pats n e", "login 0 1 l", "pats m e", "login 0 1 l", "login 0 3 l", "pats e n", "login 1 2 l",
+                                              "chpw 1 4", "login 1 2 l", "pats m m", "login 1 4 l", "login 0 1 l", "pats m n e", "login 0 1 l"]))
+    s.append(("patterns-and-erroring-server", ["pats m e", "srv 0 err52", "login 0 1 l", "chpw 0 3", "login 0 1 l", "srv 1 down", "login 0 1 l", "login 0 3 l"]))
     # double fault: the directory rejects the cached password while the primary is unreachable
     s.append(("eviction-lost-primary-down", ["login 0 1 l", "sync", "chpw 0 3", "prim down", "login 0 1 l", "prim up"] + dn + ["login 0 1 l"]))
     s.append(("eviction-lost-stale-cache", ["login 0 1 l", "sync", "chpw 0 3", "login 0 3 l", "chpw 0 4", "prim slow", "login 0 3 l", "prim up"] + dn + ["login 0 3 l"]))
@@ -61,6 +68,9 @@ def gen_seq(rng, maxlen, allow_hang=False):
     ops = []
     n = rng.randint(4, maxlen)
     style = rng.choice(["mixed", "mixed", "outage", "outage", "tamper", "churn"])
+    if rng.random() < 0.55:
+        # two or three bind patterns: e names the entry, n a DN without entry, m a name answered with an error
+        ops.append("pats " + rng.choice(["e m", "e m", "m e", "m e", "e n", "n e", "e e", "m m", "m e m", "e m n", "m n e", "e m m"]))
     if style in ("outage", "tamper"):
         # a cached hash to talk about, then (outage) a directory that does not answer
         u = rng.randint(0, 1)
@@ -125,6 +135,8 @@ def gen_seq(rng, maxlen, allow_hang=False):
             ops.append("prim %s" % rng.choice(["up", "slow", "down", "slow", "down"]))
         elif x < 0.92:
             ops.append("sync")
+        elif x < 0.925:
+            ops.append("pats " + rng.choice(["e", "e m", "m e", "n e", "e n", "m"]))
         elif x < 0.93:
             ops.append("anon %d" % rng.randint(0, 1))
         else:
@@ -159,7 +171,7 @@ def exhaustive(depth):
             continue
         if any(a == b and not a.startswith("adv") for a, b in zip(combo, combo[1:])):
             continue
-        yield ["srv 1 down", "login 0 1 l", "sync"] + list(combo)
+        yield ["pats e m", "srv 1 down", "login 0 1 l", "sync"] + list(combo)
 
 
 # ---------------------------------------------------------------- run
@@ -310,6 +322,8 @@ def run(ctx):
                         hist["%s:offline-accept-from-%s" % (short, "primary" if prim_up[i] else "cache")] += 1
                 elif o[0] == "tamper":
                     hist["%s:tamper:%s" % (short, o[3])] += 1
+                elif o[0] == "pats":
+                    hist["%s:pats:%s" % (short, "".join(o[1:]))] += 1
                 elif o[0] in ("sync", "prim", "adv", "chpw", "srv"):
                     hist["%s:%s" % (short, o[0])] += 1
             if not bad:
@@ -336,7 +350,7 @@ def run(ctx):
     ctx.coverage.update({
         "evaluations": evaluations,
         "distinct_nontrivial": len(nontrivial),
-        "rule": "histories for two directory users (+ one unknown) over two LDAPS servers: login with current/old/wrong/empty password "
+        "rule": "histories for two directory users (+ one unknown) over two LDAPS servers with one to three bind patterns each (entry / DN without entry / name answered with invalidDNSyntax, reconfigurable): login with current/old/wrong/empty password "
                 "(form and basic auth, three spellings of the name), server up/down/hanging/erroring (result codes 1, 51, 52, 53, 80), "
                 "password change/removal, clock advance, primary slow/down, synchronisation, and rows rewritten by SQL (column expiry, "
                 "foreign signature, other data type, saved row put back under any user). Every op's result, the directory's own bind "
